@@ -25,3 +25,12 @@ Proof.
   rewrite (search_refines_W chk t p Hinv), Hr in H. eapply W_singleton_greedy; eauto.
 Qed.
 Print Assumptions C12_single_route_tree_leftmost_longest.
+
+(* ---- for every history that leaves a single group-free template live ---- *)
+From WF Require Import Model.Parser Model.Router Proofs.ReachP Proofs.RouterRoutesP Proofs.RegistryP Proofs.ReachOpsP.
+Theorem C12_reachable_single_template_leftmost_longest :
+  forall b (ops : list op) chk t d e p i ps,
+    live_of b ops = [(t, d)] -> parse t = Ret [e] ->
+    rsearch chk (run b ops) p = Some (i, ps) -> LL chk (exp_route e) p (map snd ps).
+Proof. exact reach_single_template_greedy. Qed.
+Print Assumptions C12_reachable_single_template_leftmost_longest.
